@@ -25,6 +25,7 @@ def g2_bytes(Pt):
     return z1.to_bytes(48, "big") + z2.to_bytes(48, "big")
 
 
+@functools.lru_cache(4096)
 def pk_point(sk):
     return E1.mul(params.bls_g1(), sk)
 
@@ -38,6 +39,7 @@ def hash_point(msg, dst):
     return h2c.hash_to_G2(msg, dst)
 
 
+@functools.lru_cache(8192)
 def core_sign_point(sk, msg, dst):
     return E2.mul(hash_point(msg, dst), sk)
 
